@@ -906,11 +906,11 @@ rewrite `    tokens: &'t [Token],` => `    pub(crate) tokens: &'t [Token],`
 @*/
 
 impl<'t, 'i> BlockParser<'t, 'i> {
-    pub closed spec fn toks(&self) -> Seq<Token> { self.tokens@ }
+    pub open(crate) spec fn toks(&self) -> Seq<Token> { self.tokens@ }
     pub open(crate) spec fn cur(&self) -> int { self.current as int }
     pub open(crate) spec fn inp(&self) -> &'i str { self.input }
-    pub closed spec fn ext(&self) -> Extensions { self.extensions }
-    pub closed spec fn evs(&self) -> Seq<Event<'i>> { self.events@ }
+    pub open(crate) spec fn ext(&self) -> Extensions { self.extensions }
+    pub open(crate) spec fn evs(&self) -> Seq<Event<'i>> { self.events@ }
     /// representation invariant of the block parser
     pub open spec fn wf(&self) -> bool {
         &&& 0 < self.toks().len() && 0 <= self.cur() <= self.toks().len()
@@ -922,7 +922,7 @@ impl<'t, 'i> BlockParser<'t, 'i> {
     pub open spec fn same(&self, o: &Self) -> bool { self.toks() == o.toks() && self.inp() == o.inp() && self.ext() == o.ext() && self.fin() == o.fin() }
     /// the caller's event queue at the moment the block parser gives it back (a prophecy: `events` is a `&mut` borrow of that queue)
     #[verifier::prophetic]
-    pub closed spec fn fin(&self) -> Seq<Event<'i>> { final(self.events)@ }
+    pub open(crate) spec fn fin(&self) -> Seq<Event<'i>> { final(self.events)@ }
     /// offset in the input of the next unparsed token (end of the last parsed one)
     pub open spec fn off(&self) -> int { cur_off(self.toks(), self.cur()) }
     /// the tokens not yet parsed
@@ -1452,14 +1452,21 @@ pub open spec fn pq_ok<'a>(r: ParsedQuantity<'a>) -> bool {
             && (r.unit_separator.is_some() ==> r.unit_separator.unwrap().s() <= r.quantity.val().unit.unwrap().end_spec()))
     &&& r.quantity.val().value.value.sp().ok()
 }
-// the sub-parser is created over bp's own input, events and extensions: ASSUMED (Verus cannot follow the reborrow of
-// `bp.events` into the temporary block parser), but its two workers below are verified
-/*@ fn src/parser/quantity.rs parse_quantity stub
+// the sub-parser is created over bp's own input, events and extensions; its event queue is a reborrow of bp's, which is
+// followed through the prophetic `fin()` (the queue at the moment the temporary block parser dies)
+/*@ fn src/parser/quantity.rs parse_quantity
+tags C03 C04 C07
 ret r
+inline then 0
+inline unwrap_or_else 0
 spec:
     requires old(bp).wf(), tokens@.len() > 0, toks_ok(tokens@),
     ensures final(bp).wf(), final(bp).same(old(bp)), final(bp).cur() == old(bp).cur(),
-        only_diags(final(bp).evs(), old(bp).evs()), pq_ok(r),
+        only_diags(final(bp).evs(), old(bp).evs()), pq_ok(r),     // [C04] [C07]
+enter:
+    broadcast use BlockParser::lemma_resolved;
+before `let mut bp2 = BlockParser::new(tokens, bp.input, bp.events, bp.extensions);`:
+    proof { lemma_tok(tokens@, 0); broadcast use axiom_str_len_bound; }
 @*/
 // ASSUMED leaf parsers (str::parse and slice patterns are outside the verifier)
 /*@ fn src/parser/quantity.rs int stub
